@@ -6,7 +6,8 @@
    Totality of the recursive-descent PARSER is not a theorem here (searched by the driver). *)
 From Coq Require Import NArith ZArith List Bool Lia.
 From NV Require Import Common.Outcome Text.Chars Text.LexLit Text.Lexer Text.FormatScan Text.LexSpec
-  Text.Chars_proofs Text.LexLit_proofs Text.Lexer_proofs Text.LexSpec_proofs Text.FormatScan_proofs.
+  Text.LexBytesSpec Text.Chars_proofs Text.LexLit_proofs Text.Lexer_proofs Text.LexSpec_proofs Text.FormatScan_proofs
+  Text.LexBytes_proofs Text.LexFloat_proofs.
 Import ListNotations.
 Open Scope N_scope.
 
@@ -120,6 +121,41 @@ Theorem C15_format_scanner_total : forall (U : uclass) (parse_expr : list token 
   (Z.of_nat (length s) <= 2147483647)%Z -> exists r, parse_format_string U parse_expr s = Ok r.
 Proof. exact format_scanner_total. Qed.
 Print Assumptions C15_format_scanner_total.
+
+(* BYTES literals: outside the known finding bytes-x-escape-utf8 (some character >= 0x80 written
+   as \xHH) a bytes literal lexes to exactly the bytes it spells (\xHH = the byte HH, anything
+   else = its UTF-8 encoding) *)
+Theorem C15_bytes_literal_exact : forall (U : uclass) (q : N) (f : N -> style) (s rest : list N),
+  quote_ok q -> forallb is_scalar s = true -> forallb (fun c => style_ok q (f c) c) s = true ->
+  ~ known_bytes_x f s ->
+  lex_first U (66 :: render_string q f s ++ rest) = Ok ([TBytes (spelled_bytes f s)], rest).
+Proof. exact bytes_literal_exact. Qed.
+Print Assumptions C15_bytes_literal_exact.
+
+(* ... and inside it the statement is false of the code: the text B"\xff" spells [255] but lexes to [195; 191] *)
+Theorem C15_bytes_literal_refuted : exists (f : N -> style) (s : list N),
+  known_bytes_x f s /\ forallb is_scalar s = true /\ forallb (fun c => style_ok 34 (f c) c) s = true /\
+  lex_first U_ascii (66 :: render_string 34 f s) = Ok ([TBytes [195; 191]], []) /\
+  spelled_bytes f s = [255].
+Proof. exact bytes_literal_refuted. Qed.
+Print Assumptions C15_bytes_literal_refuted.
+
+(* FLOAT / IMAGINARY literals: the text handed to str::parse::<f64> is exactly the literal's own
+   digits (exponent marker normalised to e, suffix dropped); an exponent without digits is an
+   Invalid token, never a number.  Text -> f64 itself is Rust's parser (not modelled). *)
+Theorem C15_float_literal_text : forall (U : uclass) (ip fp : list N) (ex : option (bool * bool * list N)) (rest : list N),
+  ip <> [] -> digits ip -> digits fp -> exp_ok ex -> stops rest ->
+  lex_first U (ip ++ 46 :: fp ++ exp_src ex ++ rest) = Ok ([TFloat (ip ++ 46 :: fp ++ exp_acc ex)], rest).
+Proof. exact float_literal_text. Qed.
+Print Assumptions C15_float_literal_text.
+
+Theorem C15_float_suffix_imag_text : forall (U : uclass) (ip : list N), ip <> [] -> digits ip ->
+  (forall (up : bool) rest, lex_first U (ip ++ (if up then 70 else 102) :: rest) = Ok ([TFloat ip], rest)) /\
+  (forall k rest, In k [105; 73; 106; 74] -> lex_first U (ip ++ k :: rest) = Ok ([TImag ip], rest)) /\
+  (forall (up neg : bool) rest, stops rest ->
+     lex_first U (ip ++ (if up then 69 else 101) :: (if neg then [45] else []) ++ rest) = Ok ([TInvalid IBadFloat], rest)).
+Proof. exact float_suffix_imag_text. Qed.
+Print Assumptions C15_float_suffix_imag_text.
 
 (* non-vacuity: the theorems speak about real literals, and the hypotheses are satisfiable *)
 Example C15_nonvacuous :
